@@ -82,6 +82,10 @@ def interesting_positions(rng, lines, n):
             pts.append((li, m.end()))
         pts.append((li, len(ln)))
         pts.append((li, len(ln) + 1))
+        if li and lines[li - 1].rstrip().endswith("&"):
+            # a continuation line: its first column and its leading blanks
+            ind = len(ln) - len(ln.lstrip())
+            pts += [(li, 0), (li, ind // 2), (li, ind)] * 2
     if len(pts) > n:
         pts = rng.sample(pts, n)
     pts += [(len(lines), 0), (len(lines) + 5, 3), (0, 0), (0, 10 ** 4), (10 ** 5, 0)][: max(2, n // 8)]
@@ -304,6 +308,14 @@ def structural_edit(rng, lines):
             return {"range": {"start": {"line": li, "character": m.start()},
                               "end": {"line": li, "character": m.end()}},
                     "text": rng.choice(["", "zz9", m.group(0)[: len(m.group(0)) // 2], m.group(0) + "_x"])}
+    if r < 0.68:
+        # a statement broken behind a name: 'name &' / continuation line (sometimes still empty)
+        cands = [(li, m.end()) for li, ln in enumerate(lines) if "!" not in ln
+                 for m in re.finditer(r"[A-Za-z_]\w*", ln)]
+        if cands:
+            li, ch = rng.choice(cands)
+            return {"range": {"start": {"line": li, "character": ch}, "end": {"line": li, "character": ch}},
+                    "text": rng.choice(["&\n", " &\n", " &\n    ", "&\n  &"])}
     if r < 0.8:
         from .c03 import KEYWORD_LINES
 
